@@ -43,6 +43,10 @@ def run(res, tier, br, model_ok=True, search=False):
         cases.append(("snip.c", text, "snippet-" + kind))
         if big:
             cases.append(("snip.h", text, "snippet-" + kind))
+    for kind, text in faults.snippet_deletions():
+        cases.append(("snip.c", text, "snippet-" + kind))
+        if big or rng.random() < 0.3:
+            cases.append(("snip.h", text, "snippet-" + kind))
     for kind, text in faults.soup(rng, 2, 120000 if big else 6000, 7):
         cases.append(("soup.c", text, kind))
         if rng.random() < (0.3 if big else 0.5):
